@@ -622,7 +622,7 @@ class Transformer(object):
         .</body></doc>
 
         """
-        return self.apply(list)
+        return self.apply(BufferTransformation())
 
     #{ Miscellaneous operations
 
@@ -788,6 +788,20 @@ class SelectTransformation(object):
                 yield None, (TEXT, six.text_type(result), (None, -1, -1))
             else:
                 yield None, event
+
+
+class BufferTransformation(object):
+    """Buffer the entire stream before passing it on."""
+
+    def __call__(self, stream):
+        """Apply the transform filter to the marked stream.
+
+        :param stream: the marked event stream to filter
+        """
+        # Hand on an iterator rather than the list itself: transformations
+        # consume their input in nested loops that must continue where the
+        # outer loop left off.
+        return iter(list(stream))
 
 
 class InvertTransformation(object):
